@@ -947,7 +947,7 @@ bool InverseKinematics (
     CS.error_norm = CS.e.norm();
 
     // abort if we are getting "close"
-    if (CS.error_norm < CS.step_tol) {
+    if (CS.error_norm < CS.constraint_tol) {
       LOG << "Reached target close enough after " << CS.num_steps << " steps" << std::endl;
       return true;
     }
